@@ -94,7 +94,8 @@ def batch_slices(ctx):
 
 def batch_programs(ctx):
     n = 2500 if ctx.thorough else 400
-    cfg = programs.Config(exclude=("csr",))
+    # output keys in NON-lexicographic insertion order (the target sorts by key somewhere along the way)
+    cfg = programs.Config(exclude=("csr",), output_namer=lambda k: ["zeta", "beta", "mid", "alpha", "omega"][k % 5] + ("" if k < 5 else str(k)))
     nprng = np.random.default_rng(ctx.seed * 3 + 14)
     import pytato as pt
     from ..reflect import walk
@@ -200,7 +201,9 @@ def batch_scalar_operands(ctx):
     import operator
     import pytato as pt
     scalars = [2, -2, 3, -3, 0, 1.5, -0.5, -2.0, np.int32(2), np.int64(-3), np.int8(-2), np.float32(1.5), np.float32(-2),
-               np.float64(1.1), np.float64(-2.0), True]
+               np.float64(1.1), np.float64(-2.0), True,
+               float("inf"), float("-inf"), float("nan"), np.float64("inf"), np.float64("-inf"), np.float32("inf"),
+               np.float32("-inf"), np.float32("nan"), -0.0, np.float64(-0.0)]
     ops = {"+": operator.add, "-": operator.sub, "*": operator.mul, "/": operator.truediv, "**": operator.pow,
            "//": operator.floordiv, "%": operator.mod}
     data = {"int8": np.array([1, 2, 3, 0], np.int8), "int32": np.array([1, 2, 3, 4], np.int32),
